@@ -223,10 +223,10 @@ SCRUB_REGION = dict(region='scrub_limits', file='cmdline/scrub.c', begin='/* no 
                     prologue='\tstruct snapraid_plan ps = *psp;\n\tblock_off_t countlimit = *countlimitp;', epilogue='\t*psp = ps;\n\t*countlimitp = countlimit;')
 
 
-SCRUB_MARK = dict(region='scrub_mark', file='cmdline/scrub.c', begin='\t\tif (silent_error_on_this_block', include_begin=True,
-                  end='/* mark the state as needing write */', max_lines=30, expect_loops=1,
+SCRUB_MARK = dict(region='scrub_mark', file='cmdline/scrub.c', begin='/* until now is raid */',
+                  end='/* mark the state as needing write */', max_lines=34, expect_loops=1, brace_balance=-1,
                   proto='static void region_scrub_mark(struct snapraid_state *state, int silent_error_on_this_block, int io_error_on_this_block, int error_on_this_block, int rehash, struct snapraid_rehash *rehandle, unsigned diskmax, block_off_t blockcur, snapraid_info info, time_t now)',
-                  prologue='\tunsigned j;')
+                  prologue='\tunsigned j;\n\tif (1) { /* the region text starts with the last statement and the closing brace of the parity compare block */')
 
 
 SCRUB_CLASSIFY = dict(region='scrub_classify', file='cmdline/scrub.c', scope='static int state_scrub_process(struct snapraid_state* state, struct snapraid_parity_handle* parity_handle, block_off_t blockstart, block_off_t blockmax, struct snapraid_plan* plan, time_t now)',
@@ -279,7 +279,7 @@ def crc_obs(tier):
 REPAIR_CHG = dict(region='repair_chg', file='cmdline/check.c', begin="/* reprocess the CHG blocks, for which we don't have a hash to check */", end='return 0;', end_first_after=True,
                   max_lines=70, expect_loops=1,
                   proto='static void region_repair_chg(struct snapraid_state *state, int rehash, struct failed_struct *failed, unsigned failed_count, void **buffer, void *buffer_zero)',
-                  prologue='\tunsigned j;')
+                  prologue='\tunsigned j;\n\tif (1) { /* the region text starts with the last statement and the closing brace of the parity compare block */')
 
 
 def check_obs(tier):
@@ -427,6 +427,25 @@ def fs_obs():
                note='every existing extent / new position / file position; an extent for the previous file block %s; tree operations and the extent finder by recording contracts (dfcc)' % ('exists' if hp else 'does not exist')) for hp in (0, 1)]
 
 
+def fstree_obs():
+    T = 'harness/h_fstree.c'
+    bound = 'search trees of at most 7 extents (every shape of depth <= 3, every position / length, in-order increasing and non overlapping)'
+    obs = [Ob('fs.cmp.disk_empty', T, 'h_cmp_disk_empty', unwind=4, small_path=True, timeout=600, mem=4, cost=2,
+              functions=['extent_disk_empty_compare_unlock (cmdline/elem.c)'], note='every extent (position, length >= 1) and every parity size'),
+           Ob('fs.cmp.parity_inside', T, 'h_cmp_parity_inside', unwind=4, small_path=True, timeout=600, mem=4, cost=2,
+              functions=['extent_parity_inside_compare_unlock (cmdline/elem.c)', 'extent_parity_compare (cmdline/elem.c)'], note='every extent and every position'),
+           Ob('fs.cmp.file_inside', T, 'h_cmp_file_inside', unwind=4, small_path=True, timeout=600, mem=4, cost=2,
+              functions=['extent_file_inside_compare_unlock (cmdline/elem.c)', 'extent_file_compare (cmdline/elem.c)'], note='every extent, every file position, file before / same / after'),
+           Ob('fs.tree.is_empty', T, 'h_fs_is_empty', unwind=9, small_path=True, timeout=900, mem=6, cost=5, kind='bounded', bound=bound,
+              functions=['fs_is_empty (cmdline/elem.c)', 'tommy_tree_search_compare / tommy_tree_search_node (tommyds/tommytree.c)', 'extent_disk_empty_compare_unlock (cmdline/elem.c)']),
+           Ob('fs.tree.par2extent', T, 'h_fs_par2extent', unwind=9, small_path=True, timeout=900, mem=6, cost=8, kind='bounded', bound=bound,
+              functions=['fs_par2extent_get_unlock / fs_par2file_find / fs_par2block_find / fs_file2block_get (cmdline/elem.c)', 'tommy_tree_search_compare / tommy_tree_search_node (tommyds/tommytree.c)'],
+              note='with every value of the last-extent cache (none, or any extent of the tree)'),
+           Ob('fs.tree.size', T, 'h_fs_size', unwind=9, small_path=True, timeout=900, mem=6, cost=5, kind='bounded', bound=bound,
+              functions=['fs_size / extent_disk_size_compare_unlock (cmdline/elem.c)', 'tommy_tree_search_compare (tommyds/tommytree.c)'])]
+    return obs
+
+
 def c06(tier, seed):
     Y = 'harness/h_sync.c'
     return [
@@ -437,7 +456,7 @@ def c06(tier, seed):
            solver=KISSAT, defs={'ND': 3 if tier == 'thorough' else 2}, timeout=3000, mem=8, cost=40, replay=False, kind='bounded', bound='2 disk slots (thorough: 3)',
            functions=['state_sync_process: region "proceed with the parity" .. "finally schedule parity write" (cmdline/sync.c, extracted mechanically)'],
            note='every combination of error / I/O error / silent / fixed / needs-update / rehash flags, block states and presence on 3 disks; callees replaced by recording contracts (dfcc)'),
-    ] + sync_fixchk_obs() + fs_obs()
+    ] + sync_fixchk_obs() + fs_obs() + fstree_obs()
 
 
 def c05(tier, seed):
@@ -666,8 +685,8 @@ PROPS['C05'].update(
 PROPS['C06'].update(
     explanation='The decisions that make "recorded as synced" imply "parity valid", each on the real cmdline/sync.c: block_is_enabled processes a stripe iff it holds a file block and (a block with invalid parity or a forced full rebuild); the completion region marks blocks BLK and releases deleted blocks ONLY when the stripe had no error, no I/O error and any silent error was fixed; exactly then, if some block had invalid parity, raid_gen recomputes parity from the buffers and the write is scheduled; a silent or I/O error always leaves the stripe marked bad; the time is refreshed only when parity was really updated and no silent error occurred. After an in-memory repair every non-BLK failed block gets back exactly the bytes read (so the new parity is the parity of what is recorded) and the stripe counts as fixed iff every repaired block hashes to its record. Block map: fs_deallocate replaces the extent containing the released position by extents that map exactly the other positions of the old one, each to the same file block (removed / shrunk at either end / split in two, never empty); fs_allocate extends an extent only when the new block is contiguous in parity AND in the file, else adds one one-block extent and never alters an existing mapping.',
     trusted_base=['fs_par2block_find / fs_deallocate / raid_gen / info_set by recording contracts (dfcc replace)', 'memhash by contract', 'region extraction of state_sync_process (3 regions)'],
-    assumptions=['bounded: 2 disk slots in quick (3 thorough), block size 8', 'that the bytes hashed are the bytes on disk, the writer threads, parity_write I/O, autosave ordering and histories are not addressed', 'the extent operations are checked against the extent the finder returns (tree lookups, inserts and removals by recording contracts); the global invariants of the two trees (no overlap, every block mapped, monotone positions) and fs_check are NOT under an obligation'],
-    not_covered=['fs_check and the tommy_tree implementation, fs_par2file_find / fs_file2par_find', 'parity_allocated_size / parity_used_size', 'io.c worker threads', 'state_write ordering vs parity_sync'])
+    assumptions=['bounded: 2 disk slots in quick (3 thorough), block size 8', 'that the bytes hashed are the bytes on disk, the writer threads, parity_write I/O, autosave ordering and histories are not addressed', 'the extent operations are checked against the extent the finder returns (tree lookups, inserts and removals by recording contracts); the global invariants of the two trees (no overlap, every block mapped, monotone positions) are ASSUMED by the search units (they are what fs_check verifies at run time) and fs_check itself is NOT under an obligation', 'search side: the four comparators for all extents / arguments (proof); fs_is_empty, fs_par2extent_get_unlock / fs_par2file_find / fs_par2block_find and fs_size through the REAL tommy_tree_search_compare on search trees of at most 7 extents (bounded)'],
+    not_covered=['fs_check, the AVL insert / remove / rebalance of tommy_tree, fs_file2par_find', 'parity_allocated_size / parity_used_size', 'io.c worker threads', 'state_write ordering vs parity_sync'])
 PROPS['C19'] = dict(level='other', obligations=c19)
 PROPS['C19'].update(
     explanation='What sync does with the hash of a block just read (region of state_sync_process, every block state / recorded hash / digest / hash size / migration flag): a block whose hash is only provisional (REP: inherited from a file with the same name, size and time-stamp, or replaced data) and does not match the data stops the stripe with a plain error - it is neither recorded nor "repaired" from parity, its state and hash are kept; a synced (BLK) block that no longer matches is a silent error queued for in-memory repair; matching data raises nothing; a pending (CHG) block forces a parity update unless its fresh hash equals a unique recorded one. Together with the completion region of C06 (no BLK unless the stripe had no error) this is "the data is hashed before its stripe is recorded as synced, and a mismatch stops the stripe".',
